@@ -3,6 +3,7 @@ CONSTANTS
   SelfMiner = "m1"
   LeakChoices = {TRUE, FALSE}
   CapDecrChoices = {TRUE, FALSE}
+  SatChoices = {TRUE, FALSE}
 INVARIANTS C37_Returns C37_PhaseMonotone C37_TimeoutMonotone C37_ShareCap C37_ShareOnce C37_FinalizedSticky HarnessModelConforms C37_Linearizable
 POSTCONDITION Accepted
 CHECK_DEADLOCK FALSE
